@@ -234,7 +234,9 @@ CHECKS["C18"] = dict(
          "20 %] (widened binomially); a redundant standard displaced by 100 "
          "sigma must be rejected in >= 90 %; the same noise law on its own "
          "grid, and a declaration made after earlier different ones, must "
-         "give the calibration of the plain declaration.",
+         "give the calibration of the plain declaration; a two-frequency "
+         "regime with noise differing by 10..30x between the frequencies and "
+         "exact data with equation weights up to 1e8 apart are included.",
     note="statistical clauses use wide bounds; only gross mis-weighting, "
          "wrong degrees of freedom or a broken p-value are detectable",
     design_ref="DESIGN.md section 2, C18")
@@ -283,7 +285,9 @@ CHECKS["C07"] = dict(
          "are saved, loaded, re-saved and applied; names, order, types, "
          "dimensions, frequencies, z0, properties and error terms must agree "
          "to the stated precision, older-version and re-spelt files must load "
-         "to the same content. Executed histories only.",
+         "to the same content; when the table in memory is not what the "
+         "history should have produced it is still compared before save and "
+         "after load. Executed histories only.",
     note="trusted: pylib/vcalfile.py (hand-written reader of the documented "
          "file layout), numpy; z0 is accepted at min(fprecision, dprecision) "
          "digits because the manual does not say which applies",
@@ -298,7 +302,12 @@ CHECKS["C10"] = dict(
          "the documented interpolation error, results independent of query "
          "order, and every use outside the covered band (apply, parameter "
          "query, vector standard, correlated sigma grid, noise grid; both "
-         "call orders) refused. Observed executions only.",
+         "call orders) refused; a straight-line sigma law of a correlated "
+         "parameter given per calibration frequency, on the calibration grid "
+         "and on its own 2..6-knot grid gives the same weighted solve; an "
+         "apply request with the calibration's point count and end points "
+         "but other interior points is interpolated. Observed executions "
+         "only.",
     note="trusted: numpy; accuracy clauses use smooth laws where any sound "
          "interpolator is accurate, so only gross interpolation defects are "
          "visible between knots",
